@@ -29,6 +29,16 @@ func c03Gen(r *rand.Rand, tier string) any {
 	sc.Proc.Strategy = []int{simrt.StratUniform, simrt.StratSticky, simrt.StratFIFO, simrt.StratRoundRobin}[r.IntN(4)]
 	shadow := sc.clone().Spec
 	sc.Mode = []string{"crash", "crash", "crash", "fail", "fail", "ioerr", "compose", "crash-revert", "diskfull", "crash-unalways"}[r.IntN(10)]
+	if sc.Mode == "fail" && r.IntN(4) == 0 {
+		// watch mode: x fails while its sibling y is still busy, the build fails, a source of y
+		// is edited right after the build returned and the same process builds again
+		if tl, xl, files := shapeOverlap(r, shadow, sc.Spec); tl != "" && len(files) > 0 {
+			ed := opSpec{Op: "edit-source", Path: files[r.IntN(len(files))], N: 1000}
+			sc.Mode = "fail-then-edit"
+			sc.Ops = append(sc.Ops, opSpec{Op: "build", Label: tl}, opSpec{Op: "build", Label: tl, Fail: []string{xl}, Always: true, Twice: true, Between: &ed})
+			return sc
+		}
+	}
 	if sc.Mode == "crash-unalways" {
 		// an always=True target is interrupted; always= is then removed (it is not part of the
 		// function's environment, so nothing else about the target changes)
@@ -298,6 +308,34 @@ func c03Exec(scAny any, c *simcheck.Ctx) *simcheck.Violation {
 		}
 	}
 	if h.p.resolve(final.Label) == nil {
+		return nil
+	}
+	if sc.Mode == "fail-then-edit" {
+		res := h.build(last, final, h.pc, nil)
+		if v := procFailure(res); v != nil {
+			if v.Class != simcheck.EngineError {
+				v.Class = "failing-build-" + v.Class
+			}
+			return v
+		}
+		if res.LoadErr != nil {
+			return nil
+		}
+		c.St.Count("failed_build_then_edit_then_rebuild_in_one_process", 1)
+		what := fmt.Sprintf("the body of %v failed, a source was edited (%s) and the same process built %s again", final.Fail, final.Between.Path, final.Label)
+		if res.RunErr == nil {
+			if v := h.checkCurrent(final.Label); v != nil {
+				v.Msg = what + "; " + v.Msg
+				return v
+			}
+		}
+		if v := h.recoverAndCheck("fail-then-edit", last+1, final.Label, nil, nil, what); v != nil {
+			return v
+		}
+		if v := h.compareFromScratch(final.Label, "fte"); v != nil {
+			v.Msg = what + "; " + v.Msg
+			return v
+		}
 		return nil
 	}
 	snap, err := h.snapshot()
